@@ -69,6 +69,15 @@ func getDistillationFunc(dm *model.DecisionMaker) *utils.LinearFunctionParameter
 	} else {
 		parameters := utils.LinearFunctionParameters{}
 		utils.DecodeToStruct(params, &parameters)
+		validateDistillationFunc(&parameters)
 		return &parameters
+	}
+}
+
+// the cut level of a distillation must not rise, so the function has to be non-negative
+// on the whole range of credibility values [0, 1] - otherwise the distillation never ends
+func validateDistillationFunc(f *utils.LinearFunctionParameters) {
+	if f.B < 0 || f.A+f.B < 0 {
+		panic(fmt.Errorf("distillation function (%v) must not be negative on [0, 1]", f))
 	}
 }
